@@ -852,13 +852,23 @@ func checkSenders(r *vp.Recorder) {
 
 	// one sender used for several announcements in every order of the two
 	// encodings: each request declares the encoding it carries
-	for _, seq := range []string{"json,cbor", "cbor,json", "json,json,cbor", "json,cbor,json,cbor"} {
-		key := "httpsend-one-sender|" + seq
+	for _, seqo := range []string{"json,cbor", "cbor,json", "json,json,cbor", "json,cbor,json,cbor", "json|user-agent", "cbor,json|user-agent", "json,cbor|user-agent+extra"} {
+		key := "httpsend-one-sender|" + seqo
 		if !r.Mine(key) {
 			continue
 		}
 		r.Eval(key, true)
-		one, err := httpsender.New([]*url.URL{u}, pub.ID, httpsender.WithClient(n.Client()))
+		// after "|": further options the sender is built with (they say nothing
+		// about the encoding: each request still declares what it carries)
+		seq, withOpts, _ := strings.Cut(seqo, "|")
+		sopts := []httpsender.Option{httpsender.WithClient(n.Client())}
+		if strings.Contains(withOpts, "user-agent") {
+			sopts = append(sopts, httpsender.WithUserAgent("verif-announcer/1.0"))
+		}
+		if strings.Contains(withOpts, "extra") {
+			sopts = append(sopts, httpsender.WithExtraData([]byte("xx")))
+		}
+		one, err := httpsender.New([]*url.URL{u}, pub.ID, sopts...)
 		if err != nil {
 			r.Violation("httpsender:new-error", key, err.Error(), nil)
 			continue
